@@ -422,73 +422,6 @@ theorem canonical_second_is_self (A : Aff Int) (shape : List Nat) (d : DimInfo) 
 
 example : ioOrientation [[4, 0, 1], [0, 3, 0], [1, 0, 5]] 3 0 = identityOrnt.map some := by decide
 
-/-! ### the value source is the data object, never the `get_fdata` cache (image state × history) -/
-
-
-/-- **hist_wf** — the cache bookkeeping invariant (an `_fdata_cache` that IS the data object exists only on
-    an array image whose array has that very dtype, and then has the data object's contents) holds for a
-    fresh/loaded image and after EVERY history of `get_fdata(dtype, caching)` / in-place edit / `uncache`. -/
-theorem hist_wf (proxy : Bool) (arrFD : Option FD) (n : Nat) (h : List HStep) :
-    ((ImgSt.init proxy arrFD n).run h).WF :=
-  run_wf _ (init_wf proxy arrFD n) h
-
-example : ((ImgSt.init false (some .f8) 3).run [.getFdata .f8 true true]).cache = some ⟨.f8, [2, 1, 0], true⟩ := by decide
-
-/-- **hist_data_spec** — for EVERY image kind and EVERY history: what the data object holds afterwards
-    is `dataSpec`, a function of the image kind and the steps that never looks at the cache (so
-    `caching='fill'` vs `'unchanged'`, cache hits and `uncache` are irrelevant to it); the image kind does
-    not change. -/
-theorem hist_data_spec (s : ImgSt) (hw : s.WF) (h : List HStep) :
-    (s.run h).data = dataSpec s.proxy s.arrFD h s.data ∧ (s.run h).proxy = s.proxy ∧ (s.run h).arrFD = s.arrFD :=
-  run_data s hw h
-
-example : (ImgSt.init false (some .f4) 4).WF ∧
-    ((ImgSt.init false (some .f4) 4).run [.getFdata .f8 true true, .getFdata .f4 false true, .uncache]).data = [3, 2, 1, 0] :=
-  ⟨init_wf _ _ _, by decide⟩
-
-/-- **values_history_independent** — on a proxy image (loaded from disk) and on an array image whose
-    array is not of a native floating dtype, an operation that gathers voxels `srcs` returns exactly the
-    same values after ANY history as on the untouched image: every voxel keeps its value whatever was
-    done with the image before (float32 caches, edited caches, uncache ...). -/
-theorem values_history_independent (s : ImgSt) (hw : s.WF) (hk : s.proxy = true ∨ s.arrFD = none)
-    (h : List HStep) (srcs : List Nat) : (s.run h).values srcs = s.values srcs := by
-  unfold ImgSt.values
-  rw [(run_data s hw h).1, dataSpec_inert _ _ hk]
-
-example : (ImgSt.init true none 6).WF ∧ ((ImgSt.init true none 6).proxy = true ∨ (ImgSt.init true none 6).arrFD = none) ∧
-    ((ImgSt.init true none 6).run [.getFdata .f4 true true]).cache = some ⟨.f4, [5, 4, 3, 2, 1, 0], false⟩ :=
-  ⟨init_wf _ _ _, Or.inl rfl, by decide⟩
-
-/-- **values_any_history** — for every image kind the values are a gather of the data object as it is
-    after the history, and that is the original contents or (after an odd number of edits through an
-    aliasing `get_fdata` result on a floating array image) their reversal — never a cache rendering. -/
-theorem values_any_history (s : ImgSt) (hw : s.WF) (h : List HStep) (srcs : List Nat) :
-    (s.run h).values srcs = srcs.map (fun k => s.data.getD k 0) ∨
-    (s.run h).values srcs = srcs.map (fun k => s.data.reverse.getD k 0) := by
-  unfold ImgSt.values
-  rw [(run_data s hw h).1]
-  rcases dataSpec_rev s.proxy s.arrFD h s.data with e | e <;> rw [e]
-  · exact Or.inl rfl
-  · exact Or.inr rfl
-
-/-- **reorient_history_world** — `as_reoriented` on a loaded (proxy) image after ANY history: for each of
-    the 48 orientations, every shape and affine, every output voxel `j` has its source voxel inside the
-    image at the same world position (reorient_world) AND holds the value the data object has there,
-    i.e. the value it would hold had nothing been done with the image before. -/
-theorem reorient_history_world (A : Aff Int) (n0 n1 n2 : Nat) (nr : List Nat) (d : DimInfo) (o : Ornt)
-    (ho : o ∈ allOrnts3) (r : ReorOut)
-    (hr : asReoriented A (n0 :: n1 :: n2 :: nr) d (o.map some) = .ok r)
-    (n : Nat) (arrFD : Option FD) (h : List HStep) (j : List Nat) (hj : j ∈ allIdx r.shape) :
-    (∃ j0 j1 j2 jr x y z,
-      j = j0 :: j1 :: j2 :: jr ∧ r.src (n0 :: n1 :: n2 :: nr) j = x :: y :: z :: jr ∧
-      x < n0 ∧ y < n1 ∧ z < n2 ∧ jr ∈ allIdx nr ∧
-      r.affine.apply j0 j1 j2 = A.apply x y z) ∧
-    ((ImgSt.init true arrFD n).run h).values [ravelC (n0 :: n1 :: n2 :: nr) (r.src (n0 :: n1 :: n2 :: nr) j)] =
-      (ImgSt.init true arrFD n).values [ravelC (n0 :: n1 :: n2 :: nr) (r.src (n0 :: n1 :: n2 :: nr) j)] :=
-  ⟨reorient_world A n0 n1 n2 nr d o ho r hr j hj,
-   values_history_independent _ (init_wf _ _ _) (Or.inl rfl) h _⟩
-
-
 /-! ### constants regenerated from the working tree (Generated/C05.lean, rewritten on every run) -/
 
 /-- **gen_consts_ok**: the default axis labels of BOTH `ornt2axcodes` and `axcodes2ornt`, the
@@ -505,20 +438,187 @@ theorem gen_consts_ok :
 
 example : Gen.labelsOrnt2ax.length = 3 ∧ Gen.identityOrnt.length = 3 := by decide
 
-/-- the names through which the cached floating-point rendering of an image's data is reached
-    (dataobj_images.py) -/
-def cacheNames : List String := ["_fdata_cache", "_data_cache", "get_fdata", "get_data", "in_memory", "uncache"]
+/-! ### the value source of the operations: regenerated from the AST, `Src.dataobj` proved, `Src.cache` refuted -/
 
-/-- **gen_value_source_ok** — read from the source of THIS run: none of `SpatialImage.as_reoriented`,
-    `SpatialFirstSlicer.__getitem__`, `Nifti1Pair.as_reoriented`, `as_closest_canonical` touches the
-    `get_fdata` cache of the image (attribute names regenerated from the AST), and the first two do read
-    `dataobj` — the assumption under which `ImgSt.values` (the model's value source) is the code's. -/
+/-- where `SpatialImage.as_reoriented` takes its voxels from, according to the attribute names it touches
+    in the source of THIS run (unknown → the worst case) -/
+def reorientSrc : Src := (srcOfAttrs Gen.reorientSelfAttrs).getD .cache
+/-- where `SpatialFirstSlicer.__getitem__` takes its voxels from, read the same way -/
+def slicerSrc : Src := (srcOfAttrs Gen.slicerImgAttrs).getD .cache
+
+/-- **gen_value_source_ok** — read from the source of THIS run: `SpatialImage.as_reoriented` and
+    `SpatialFirstSlicer.__getitem__` read `dataobj` and touch no accessor of the `get_fdata` cache (so the
+    model's `Src` parameter is `dataobj` for both), and `Nifti1Pair.as_reoriented` / `as_closest_canonical`
+    (which delegate to `as_reoriented`) touch none either. -/
 theorem gen_value_source_ok :
-    (Gen.reorientSelfAttrs ++ Gen.slicerImgAttrs ++ Gen.niftiReorientSelfAttrs ++ Gen.canonicalImgAttrs).all
-        (fun a => !cacheNames.contains a) = true ∧
-    Gen.reorientSelfAttrs.contains "dataobj" = true ∧ Gen.slicerImgAttrs.contains "dataobj" = true ∧
+    srcOfAttrs Gen.reorientSelfAttrs = some .dataobj ∧ srcOfAttrs Gen.slicerImgAttrs = some .dataobj ∧
+    reorientSrc = .dataobj ∧ slicerSrc = .dataobj ∧
+    (Gen.niftiReorientSelfAttrs ++ Gen.canonicalImgAttrs).all (fun a => !cacheNames.contains a) = true ∧
     Gen.canonicalImgAttrs.contains "as_reoriented" = true := by decide
 
-example : Gen.reorientSelfAttrs.length = 5 ∧ cacheNames.length = 6 := by decide
+/-- non-vacuity: the lists are populated, and the classifier does tell the sources apart -/
+example : "dataobj" ∈ Gen.reorientSelfAttrs ∧ "dataobj" ∈ Gen.slicerImgAttrs ∧
+    srcOfAttrs ["affine", "_fdata_cache", "dataobj"] = some .cache ∧ srcOfAttrs ["affine"] = none := by decide
+
+/-- **hist_wf** — the cache bookkeeping invariant (an `_fdata_cache` that IS the data object exists only on
+    an array image whose array has that very dtype, and then has the data object's contents) holds for a
+    fresh/loaded image and is kept by EVERY history of `get_fdata(dtype, caching)` / arbitrary in-place edit /
+    `uncache`, for every value type and every cast. -/
+theorem hist_wf (proxy : Bool) (arrFD : Option FD) (n : Nat) :
+    (ImgSt.init proxy arrFD n).WF ∧
+    ∀ {α : Type} (cast : FD → α → α) (s : ImgSt α), s.WF → ∀ h : List (HStep α), (s.run cast h).WF :=
+  ⟨init_wf proxy arrFD n, fun cast s hw h => run_wf cast s hw h⟩
+
+example : ((ImgSt.init false (some .f8) 3).run (fun _ k => k) [.getFdata .f8 true (some List.reverse)]).cache =
+    some ⟨.f8, [2, 1, 0], true⟩ := by decide
+
+/-- **hist_data_spec** — for EVERY image kind, value type, cast and history (with ARBITRARY edits of the
+    arrays `get_fdata` returned): what the data object holds afterwards is `dataSpec`, a function of the
+    image kind and the steps that never looks at the cache and never applies a cast (so `caching='fill'`
+    vs `'unchanged'`, cache hits, `uncache` and the floating dtype asked for are irrelevant to it); the
+    image kind does not change. -/
+theorem hist_data_spec {α : Type} (cast : FD → α → α) (s : ImgSt α) (hw : s.WF) (h : List (HStep α)) :
+    (s.run cast h).data = dataSpec s.proxy s.arrFD h s.data ∧ (s.run cast h).proxy = s.proxy ∧
+      (s.run cast h).arrFD = s.arrFD :=
+  run_data cast s hw h
+
+example : (ImgSt.init false (some .f4) 4).WF ∧
+    ((ImgSt.init false (some .f4) 4).run (fun _ k => k + 100)
+      [.getFdata .f8 true (some List.reverse), .getFdata .f4 false (some (List.rotateLeft · 1)), .uncache]).data =
+      [1, 2, 3, 0] :=
+  ⟨init_wf _ _ _, by decide⟩
+
+/-- **values_history_independent** — on a proxy image (loaded from disk) and on an array image whose
+    array is not of a native floating dtype, an operation that reads its voxels where THE CODE OF THIS RUN
+    reads them (`reorientSrc`, `slicerSrc`: regenerated, = the data object) and gathers voxels `srcs` returns
+    exactly the same values after ANY history as on the untouched image, for every cast: every voxel keeps
+    its value whatever was done with the image before (float32 caches, edited caches, uncache ...). -/
+theorem values_history_independent {α : Type} [Inhabited α] (cast : FD → α → α) (s : ImgSt α) (hw : s.WF)
+    (hk : s.proxy = true ∨ s.arrFD = none) (h : List (HStep α)) (srcs : List Nat) :
+    (s.run cast h).values reorientSrc srcs = s.values .dataobj srcs ∧
+    (s.run cast h).values slicerSrc srcs = s.values .dataobj srcs := by
+  rw [gen_value_source_ok.2.2.1, gen_value_source_ok.2.2.2.1]
+  unfold ImgSt.values
+  simp only [ImgSt.source]
+  rw [(run_data cast s hw h).1, dataSpec_inert _ _ hk]
+  exact ⟨rfl, rfl⟩
+
+example : (ImgSt.init true none 6).WF ∧ ((ImgSt.init true none 6).proxy = true ∨ (ImgSt.init true none 6).arrFD = none) ∧
+    ((ImgSt.init true none 6).run (fun _ k => k) [.getFdata .f4 true (some List.reverse)]).cache =
+      some ⟨.f4, [5, 4, 3, 2, 1, 0], false⟩ :=
+  ⟨init_wf _ _ _, Or.inl rfl, by decide⟩
+
+/-- **values_cache_counterexample** — the property FAILS for the other value of the model's `Src`
+    parameter (an operation that takes the voxels from the `get_fdata` cache when it is filled — the seeded
+    change C05_8): on a loaded int image holding 16777217 (= 2^24 + 1), after `get_fdata(dtype=float32)` the
+    gathered values are the float32 roundings (16777216), not the voxel values; and even with an exact
+    cast an in-place edit of the array `get_fdata` returned is followed.  (`castInt` = IEEE
+    round-to-nearest-even of integers.) -/
+theorem values_cache_counterexample :
+    ((⟨true, none, [16777217, 5], none⟩ : ImgSt Int).run castInt [.getFdata .f4 true none]).values .cache [1, 0] =
+      [5, 16777216] ∧
+    ((⟨true, none, [16777217, 5], none⟩ : ImgSt Int).run castInt [.getFdata .f4 true none]).values .dataobj [1, 0] =
+      [5, 16777217] ∧
+    ((⟨true, none, [16777217, 5], none⟩ : ImgSt Int).run (fun _ v => v)
+        [.getFdata .f8 true (some List.reverse)]).values .cache [0, 1] = [5, 16777217] ∧
+    ((⟨true, none, [16777217, 5], none⟩ : ImgSt Int).run (fun _ v => v)
+        [.getFdata .f8 true (some List.reverse)]).values .dataobj [0, 1] = [16777217, 5] := by
+  decide +kernel
+
+/-- **values_any_history** — for EVERY image kind: the values an operation reading the data object
+    gathers after a history are a gather of `dataSpec` (no cast, no cache), and when the edits made
+    through `get_fdata` results only rearrange values, every gathered value is a value the data object
+    held originally (or the out-of-range default) — never a cache rendering. -/
+theorem values_any_history {α : Type} [Inhabited α] (cast : FD → α → α) (s : ImgSt α) (hw : s.WF)
+    (h : List (HStep α)) (srcs : List Nat) :
+    (s.run cast h).values .dataobj srcs = srcs.map (fun k => (dataSpec s.proxy s.arrFD h s.data).getD k default) ∧
+    ((∀ st ∈ h, st.Rearranges) → ∀ v ∈ (s.run cast h).values .dataobj srcs, v ∈ s.data ∨ v = default) := by
+  have hv : (s.run cast h).values .dataobj srcs =
+      srcs.map (fun k => (dataSpec s.proxy s.arrFD h s.data).getD k default) := by
+    unfold ImgSt.values
+    simp only [ImgSt.source]
+    rw [(run_data cast s hw h).1]
+  refine ⟨hv, ?_⟩
+  intro hr v hvm
+  rw [hv, List.mem_map] at hvm
+  obtain ⟨k, -, rfl⟩ := hvm
+  by_cases hk : k < (dataSpec s.proxy s.arrFD h s.data).length
+  · left
+    apply dataSpec_mem s.proxy s.arrFD h hr s.data
+    simp [List.getD, hk]
+  · right
+    simp [List.getD, List.getElem?_eq_none (Nat.le_of_not_lt hk)]
+
+example : (HStep.getFdata .f4 true (some (List.reverse : List Nat → List Nat))).Rearranges := by
+  intro l x hx; simpa using hx
+
+/-- **reorient_history_world** — `as_reoriented` on a loaded (proxy) image of shape `n0 x n1 x n2 x nr`
+    whose data object holds the element numbers `range (n0*n1*n2*prod nr)`, after ANY history and for every
+    cast, reading the voxels where the code of this run reads them: for each of the 48 orientations, every
+    output voxel `j` has its source voxel inside the image at the same world position, the source's
+    element number is in range, and THE WHOLE VOXEL LIST of the reoriented image is exactly the list of
+    source voxels at the mapped positions. -/
+theorem reorient_history_world (A : Aff Int) (n0 n1 n2 : Nat) (nr : List Nat) (d : DimInfo) (o : Ornt)
+    (ho : o ∈ allOrnts3) (r : ReorOut)
+    (hr : asReoriented A (n0 :: n1 :: n2 :: nr) d (o.map some) = .ok r)
+    (cast : FD → Nat → Nat) (arrFD : Option FD) (h : List (HStep Nat)) :
+    (∀ j ∈ allIdx r.shape,
+      (∃ j0 j1 j2 jr x y z,
+        j = j0 :: j1 :: j2 :: jr ∧ r.src (n0 :: n1 :: n2 :: nr) j = x :: y :: z :: jr ∧
+        x < n0 ∧ y < n1 ∧ z < n2 ∧ jr ∈ allIdx nr ∧
+        r.affine.apply j0 j1 j2 = A.apply x y z) ∧
+      ravelC (n0 :: n1 :: n2 :: nr) (r.src (n0 :: n1 :: n2 :: nr) j) < prodN (n0 :: n1 :: n2 :: nr)) ∧
+    ((ImgSt.init true arrFD (prodN (n0 :: n1 :: n2 :: nr))).run cast h).values reorientSrc
+        ((allIdx r.shape).map (fun j => ravelC (n0 :: n1 :: n2 :: nr) (r.src (n0 :: n1 :: n2 :: nr) j))) =
+      (allIdx r.shape).map (fun j => ravelC (n0 :: n1 :: n2 :: nr) (r.src (n0 :: n1 :: n2 :: nr) j)) := by
+  have hw : ∀ j ∈ allIdx r.shape, _ := fun j hj => reorient_world A n0 n1 n2 nr d o ho r hr j hj
+  have hlt : ∀ j ∈ allIdx r.shape,
+      ravelC (n0 :: n1 :: n2 :: nr) (r.src (n0 :: n1 :: n2 :: nr) j) < prodN (n0 :: n1 :: n2 :: nr) := by
+    intro j hj
+    obtain ⟨j0, j1, j2, jr, x, y, z, -, hs, hx, hy, hz, hjr, -⟩ := hw j hj
+    rw [hs]
+    exact ravelC_lt _ _ (mem_allIdx_cons.mpr ⟨x, _, hx, mem_allIdx_cons.mpr ⟨y, _, hy,
+      mem_allIdx_cons.mpr ⟨z, _, hz, hjr, rfl⟩, rfl⟩, rfl⟩)
+  refine ⟨fun j hj => ⟨hw j hj, hlt j hj⟩, ?_⟩
+  rw [gen_value_source_ok.2.2.1]
+  apply hist_gather_range
+  intro k hk
+  obtain ⟨j, hj, rfl⟩ := List.mem_map.mp hk
+  exact hlt j hj
+
+example : ∃ r, [(1, -1), (0, 1), (2, 1)] ∈ allOrnts3 ∧
+    asReoriented ⟨⟨2, 1, 0, -3⟩, ⟨-1, 3, 1, 4⟩, ⟨0, 1, -2, 5⟩⟩ [2, 3, 4, 2] [some 0, some 1, some 2]
+      ([(1, -1), (0, 1), (2, 1)].map some) = .ok r ∧ (allIdx r.shape).length = 48 ∧ prodN [2, 3, 4, 2] = 48 := by
+  refine ⟨_, by decide, rfl, by decide, by decide⟩
+
+/-- **canonical_history_world** — the same for `as_closest_canonical` (which reorients by
+    `io_orientation(img.affine)`), for EVERY polar factor `R`: world position, range, and the whole voxel
+    list after any history on a proxy image. -/
+theorem canonical_history_world (A : Aff Int) (n0 n1 n2 : Nat) (nr : List Nat) (d : DimInfo) (R : List (List Int))
+    (tol : Nat) (enf : Bool) (hR : R.length = 3) (o : OrntN) (r : ReorOut)
+    (hc : asClosestCanonical A (n0 :: n1 :: n2 :: nr) d R tol enf = .ok (o, r))
+    (cast : FD → Nat → Nat) (arrFD : Option FD) (h : List (HStep Nat)) :
+    (∀ j ∈ allIdx r.shape,
+      ravelC (n0 :: n1 :: n2 :: nr) (r.src (n0 :: n1 :: n2 :: nr) j) < prodN (n0 :: n1 :: n2 :: nr)) ∧
+    ((ImgSt.init true arrFD (prodN (n0 :: n1 :: n2 :: nr))).run cast h).values reorientSrc
+        ((allIdx r.shape).map (fun j => ravelC (n0 :: n1 :: n2 :: nr) (r.src (n0 :: n1 :: n2 :: nr) j))) =
+      (allIdx r.shape).map (fun j => ravelC (n0 :: n1 :: n2 :: nr) (r.src (n0 :: n1 :: n2 :: nr) j)) := by
+  have hlt : ∀ j ∈ allIdx r.shape,
+      ravelC (n0 :: n1 :: n2 :: nr) (r.src (n0 :: n1 :: n2 :: nr) j) < prodN (n0 :: n1 :: n2 :: nr) := by
+    intro j hj
+    obtain ⟨-, j0, j1, j2, jr, x, y, z, -, hs, hx, hy, hz, hjr, -⟩ := canonical_world A n0 n1 n2 nr d R tol enf hR o r hc j hj
+    rw [hs]
+    exact ravelC_lt _ _ (mem_allIdx_cons.mpr ⟨x, _, hx, mem_allIdx_cons.mpr ⟨y, _, hy,
+      mem_allIdx_cons.mpr ⟨z, _, hz, hjr, rfl⟩, rfl⟩, rfl⟩)
+  refine ⟨hlt, ?_⟩
+  rw [gen_value_source_ok.2.2.1]
+  apply hist_gather_range
+  intro k hk
+  obtain ⟨j, hj, rfl⟩ := List.mem_map.mp hk
+  exact hlt j hj
+
+example : ∃ o r, asClosestCanonical ⟨⟨2, 1, 0, -3⟩, ⟨-1, 3, 1, 4⟩, ⟨0, 1, -2, 5⟩⟩ [2, 3, 4, 2] [some 0, none, some 2]
+    [[5, -2, 9], [-5, 3, 2], [2, 8, -1]] 0 false = .ok (o, r) ∧ (allIdx r.shape).length = 48 := by
+  refine ⟨_, _, rfl, by decide⟩
 
 end Nb.C05
